@@ -435,6 +435,19 @@ func (c *Variant) Equals(obj *Variant) bool {
 	if value1 == nil || value2 == nil {
 		return value1 == value2
 	}
+	if c.typ == Array || obj.typ == Array {
+		array1, ok1 := value1.([]*Variant)
+		array2, ok2 := value2.([]*Variant)
+		if c.typ != obj.typ || !ok1 || !ok2 || len(array1) != len(array2) {
+			return false
+		}
+		for index := range array1 {
+			if array1[index] == nil || !array1[index].Equals(array2[index]) {
+				return false
+			}
+		}
+		return true
+	}
 	return c.typ == obj.typ && value1 == value2
 }
 
